@@ -220,6 +220,7 @@ SLOT = {}
 
 
 CRASH_BODY = b'"__handler_crash__"'
+REFUSED_BODY = b'"__loads_refuses__"'      # loads() refuses the document the stdlib way: a bare ValueError
 
 
 class HandlerCrash(RuntimeError):
@@ -230,6 +231,8 @@ def crashing_loads(s):
     import json
     if (b'__handler_crash__' if isinstance(s, bytes) else '__handler_crash__') in s:
         raise HandlerCrash('loads() failed')
+    if (b'__loads_refuses__' if isinstance(s, bytes) else '__loads_refuses__') in s:
+        raise ValueError('document refused')
     return json.loads(s)
 
 
@@ -448,6 +451,8 @@ def body_outcome(ct, body):
             return ('unpinned-form',)     # lenient readings of broken forms are C08's business
     if body == b'':
         return ('notfound',)
+    if body == REFUSED_BODY:
+        return ('malformed',)       # what loads() rejects with ValueError is malformed media (400), whatever the subclass
     if body == CRASH_BODY:
         return ('crash',)           # the handler itself fails with a non-HTTP error: "a failed parse" all the same
     try:
@@ -850,7 +855,7 @@ def build_cases(tier, seed):
     # H: call histories
     hbodies = [(b'{"%s": 1}' % sym.encode(), 'valid'), (b'null', 'valid-falsy'), (b'0', 'valid-falsy'), (b'false', 'valid-falsy'),
                (b'""', 'valid-falsy'), (b'[]', 'valid-falsy'), (b'{}', 'valid-falsy'), (b'', 'empty'), (b' ', 'whitespace'),
-               (b'{', 'truncated'), (b'\xff', 'invalid-utf8'), (b'"\xe9"', 'latin-1'), (CRASH_BODY, 'handler-crash')]
+               (b'{', 'truncated'), (b'\xff', 'invalid-utf8'), (b'"\xe9"', 'latin-1'), (CRASH_BODY, 'handler-crash'), (REFUSED_BODY, 'loads-refuses')]
     maxlen = 3 if quick else 4
     for body, bk in hbodies:
         for ct in json_cts(sym):
